@@ -332,7 +332,9 @@ class NumpyDataWrapper(SourceDataWrapper):
         """
 
         if self._dtype == self._data_source.dtype:
-            return self._data_source[start:stop]
+            # start and stop are relative to the requested row range (from_idx, to_idx)
+            stop_idx = self._to_idx if stop is None else self._from_idx + stop
+            return self._data_source[self._from_idx + start:stop_idx]
 
         return super().load_chunk(start, stop)
 
